@@ -150,8 +150,16 @@ func jsonNormalizationSafe(buf []byte) []byte {
 	for i := 0; i < len(buf); {
 		r, size := utf8.DecodeRune(buf[i:])
 		if r >= utf8.RuneSelf && len(out) > 0 && out[len(out)-1] < utf8.RuneSelf {
-			pair := append([]byte{out[len(out)-1]}, buf[i:i+size]...)
-			if !norm.NFC.IsNormal(pair) {
+			// The ASCII character is judged together with the whole run of
+			// combining characters that follows it, because a later member
+			// of the run can combine with it across the earlier ones.
+			end := i + size
+			for end < len(buf) && !norm.NFC.Properties(buf[end:]).BoundaryBefore() {
+				_, sz := utf8.DecodeRune(buf[end:])
+				end += sz
+			}
+			seq := append([]byte{out[len(out)-1]}, buf[i:end]...)
+			if !norm.NFC.IsNormal(seq) {
 				if r1, r2 := utf16.EncodeRune(r); r1 != utf8.RuneError {
 					out = append(out, fmt.Sprintf(`\u%04x\u%04x`, r1, r2)...)
 				} else {
